@@ -150,3 +150,20 @@ def _f15(f, pid, case, clause, ctx):
 def _f06(f, pid, case, clause, ctx):
     """C27: Blocks (x.blocks[...], every task an Alias) inherits the generic estimate."""
     return clause == "alias-moves-bytes" and " node Blocks: " in case.get("detail", "")
+
+
+# ---------------------------------------------------------------------------- optimizer (C08 ...)
+def _acts(case):
+    return [a.get("a") for a in case.get("prog", []) if a.get("a") != "Source"]
+
+
+@matcher("second_optimize_simplifies_lowering_products")
+def _f10(f, pid, case, clause, ctx):
+    """C08: lowering a rechunk / unification next to a concatenate of slices (pad, roll) creates slice nodes that
+    only a second optimize() simplifies: optimize(optimize(e)) is smaller, and is a fixpoint."""
+    if clause != "optimize-not-idempotent" or case.get("fn") != "optimize":
+        return False
+    if not any(a in f["params"]["producers"] for a in _acts(case)):
+        return False
+    return (case.get("simp1") == case.get("simp2") and case.get("low1") == case.get("low2")
+            and case.get("opt3") == case.get("opt2") and case.get("nodes2", 10 ** 9) <= case.get("nodes1", 0))
